@@ -1683,6 +1683,8 @@ namespace ipr::impl {
 
       const ipr::Identifier& name_factory::get_identifier(const ipr::String& s)
       {
+         if (auto id = word_if_known(s.characters()))
+            return *id;
          return *ids.insert(s, id_compare());
       }
 
